@@ -13,7 +13,8 @@ LEVEL = "exploration"
 EXHAUSTIVE = True
 TECHNIQUE = "runtime oracle on the real functions: exhaustive enumeration of the atomic unit space against restated SI tables (exact powers of ten) + sampled algebraic laws"
 RULE = ("Exhaustive: every (prefix1, prefix2, unit, power) with 21 prefixes (incl. none), 31 unit symbols, 8 power "
-        "spellings -> scalable/scaling judged against 10^((e1-e2)*power); every prefix+unit+power string -> "
+        "spellings -> scalable/scaling judged against 10^((e1-e2)*power), evaluated in an order drawn per unit and shard, plus the same power spelled "
+        "differently on the two sides ('' = '1', '2' = '+2'); every prefix+unit+power string -> "
         "is_atomic/is_si/split judged against its construction recipe.  Sampled: composition/inversion triples, "
         "cross-unit and cross-power pairs, compounds of 2-4 atomics, sanitiser strings over a 13-letter alphabet, "
         "non-unit strings.  A case is distinct by (law, prefix-emptiness pattern, unit, power) resp. (law, string); "
